@@ -12,7 +12,15 @@ from props.common import corpus_check
 def run(ctx):
     rng = random.Random(ctx["seed"] + 16)
     tier = ctx["tier"]
-    res = corpus_check(ctx, "C16", None)
+    def l1_mutation(it):
+        ch = it["impl"].get("api_changed")
+        if not ch:
+            return []
+        only_names = all(c["fields"] == ["name"] for c in ch)
+        return [{"what": f"generating stubs from a generated API object changed the object: {ch[:3]}",
+                 "finding": "rename_on_model" if only_names else None}]
+
+    res = corpus_check(ctx, "C16", None, l1_oracle=l1_mutation)
     n = 8 if tier == "quick" else 60
     base = implrun.scratch_dir("c16")
     jobs, pk = [], []
